@@ -771,8 +771,9 @@ def model_frames(rendered, tabs):
     return err, out
 
 
-def run_model(cases, tabs):
-    """evaluate run true / run false on every case by vm_compute; returns (consts, [(true, false)])"""
+def run_model(cases, tabs, rounds=None):
+    """evaluate run true / run false on every case by vm_compute; returns (consts, [(true, false)]);
+    with rounds (concurrent commands + schedules): (consts, cases result, rounds result)"""
     os.makedirs(vlib.GEN, exist_ok=True)
     pre = open(os.path.join(vlib.ROOT, "oracle", "c14", "preamble.v")).read()
     path = os.path.join(vlib.GEN, "c14_cases_%d.v" % os.getpid())
@@ -780,6 +781,12 @@ def run_model(cases, tabs):
     body.append(";\n".join("  (%s, %s)" % (ccase(c, tabs), "true" if c.get("fault") else "false") for c in cases))
     body.append("].\nEval vm_compute in [keep_alive_interval_ms; max_missed_kas; read_timeout_ms].\n"
                 "Eval vm_compute in (map both cases).\n")
+    if rounds is not None:
+        body.append("Definition rounds : list (list (list job) * list (list nat)) := [")
+        body.append(";\n".join("  ([%s],\n   [%s])" % (
+            ";\n    ".join("[" + "; ".join("mkJob %d (%s)" % (c["dev"], ccase(c, tabs)) for c in lane) + "]" for lane in r["lanes"]),
+            "; ".join("([%s]%%nat : list nat)" % ";".join(str(i) for i in sc) for sc in r["scheds"])) for r in rounds))
+        body.append("].\nEval vm_compute in (map conc_both rounds).\n")
     with open(path, "w") as fh:
         fh.write("\n".join(body))
     rc, out = vlib.coqc(path, cwd=vlib.GEN, timeout=1500)
@@ -793,13 +800,15 @@ def run_model(cases, tabs):
     except OSError:
         pass
     if rc != 0:
-        return None, out
+        return (None, out) if rounds is None else (None, out, None)
     blocks = re.findall(r"=\s*(\[.*?\])\s*:\s*list", out, re.S)
-    if len(blocks) != 2:
-        return None, out[-2000:]
+    if len(blocks) != (2 if rounds is None else 3):
+        return (None, out[-2000:]) if rounds is None else (None, out[-2000:], None)
     consts = json.loads(re.sub(r"\s+", "", blocks[0]).replace(";", ","))
     res = json.loads(re.sub(r"\s+", "", blocks[1]).replace(";", ","))
-    return consts, res
+    if rounds is None:
+        return consts, res
+    return consts, res, json.loads(re.sub(r"\s+", "", blocks[2]).replace(";", ","))
 
 
 # ------------------------------------------------------------------ reporting helpers
@@ -845,6 +854,405 @@ def signature(c, e, err, frames):
     return "write-custom-wrong-request"
 
 
+# ------------------------------------------------------------------ commands in progress at the same time
+# Rounds of commands issued at once by several callers against ONE Driver (several devices, several callers per device).
+# Every command carries markers of its own in every parameter (IDs, every element of its documents, vendor and data of a
+# custom message): a request on the wire can be attributed to the command it belongs to, and a request built from two
+# commands' parameters is recognisable as such. Documents are large (tens of kilobytes of JSON) so that their handling
+# takes a while; the documents of one size class have exactly the same JSON length (markers have a fixed number of digits).
+NDEV = 3
+CONC_SCALES = {"s": 1, "m": 6, "l": 16}
+
+
+def big_rospec(rid, m, scale):
+    nai, nant = 12 * scale, 12
+    j = rospec_json(rid)
+    j["AISpecs"] = [{"AntennaIDs": [m] * nant, "StopTrigger": {"Trigger": 0, "DurationTriggerValue": 0},
+                     "InventoryParameterSpecs": [{"InventoryParameterSpecID": m, "AirProtocolID": 1}]} for _ in range(nai)]
+    bnd = tlv(178, tlv(179, "00") + tlv(182, "00" + be(0, 4)))
+    ai = tlv(183, be(nant, 2) + be(m, 2) * nant + tlv(184, "00" + be(0, 4)) + tlv(186, be(m, 2) + "01"))
+    return V_doc(j, ro=tlv(177, be(rid, 4) + "01" + "00" + bnd + ai * nai))
+
+
+def big_accessspec(aid, m, scale):
+    # as accessspec_hex plus C1G2Write(342){opspec 2, pwd 0, MB=3, word ptr 0, word count, words}
+    nwords = 400 * scale
+    j = accessspec_json(aid)
+    j["AccessCommand"]["C1G2Write"] = {"OpSpecID": 2, "AccessPassword": 0, "C1G2MemoryBank": 3, "WordAddress": 0, "Data": [m] * nwords}
+    tag = tlv(339, "60" + "0000" + "0000" + "0000")
+    cmd = tlv(209, tlv(338, tag) + tlv(341, "0001" + be(0, 4) + "80" + "0000" + "0006") +
+              tlv(342, "0002" + be(0, 4) + "c0" + "0000" + be(nwords, 2) + be(m, 2) * nwords))
+    return V_doc(j, acs=tlv(207, be(aid, 4) + "0000" + "01" + "00" + be(0, 4) + tlv(208, "00" + "0000") + cmd))
+
+
+def big_cfg(iv, m, scale):
+    n = 160 * scale
+    j = {"KeepAliveSpec": {"Trigger": 1, "Interval": iv}, "GPOWriteData": [{"Port": m, "Data": True} for _ in range(n)]}
+    return V_doc(j, cfg=cfgexp(ka=(1, iv), tlvs=[(219, be(m, 2) + "80")] * n))
+
+
+def big_doc(recipe):
+    kind, big, m, scale = recipe
+    return {"ROSpec": big_rospec, "AccessSpec": big_accessspec, "ReaderConfig": big_cfg}[kind](big, m, CONC_SCALES[scale])
+
+
+def compact_round(r):
+    """a round as it is stored in a replay file: the large documents by their recipe (kind, ID marker, element marker, size class)"""
+    return {"name": r["name"], "lanes": [[dict(c, params=[dict(c["params"][0], v={"recipe": c["recipe"]})]) if c.get("recipe") else c
+                                          for c in lane] for lane in r["lanes"]]}
+
+
+def expand_round(r):
+    for lane in r["lanes"]:
+        for c in lane:
+            if c.get("recipe"):
+                c["params"][0]["v"] = big_doc(c["recipe"])
+    return json.loads(json.dumps(r))
+
+
+def conc_custom(name, vendor, subtype, val, t="String"):
+    return {"k": "w", "reqs": [attr_req(name, t, vendor, subtype)], "params": [P(name, t, val)]}
+
+
+def gen_rounds(seed, tier):
+    rnd = random.Random(seed ^ 0xC0C14)
+    ctr = [0]
+
+    def marker():
+        ctr[0] += 1
+        return ctr[0]
+
+    def obj(kind, scale):
+        k = marker()
+        big, m = 1000000000 + k, 10000 + k % 50000
+        return {"k": "w", "reqs": [attr_req(kind, "Object")], "params": [P(kind, "Object", big_doc([kind, big, m, scale]))],
+                "recipe": [kind, big, m, scale]}
+
+    def ident():
+        res = rnd.choice(["ROSpecID", "AccessSpecID"])
+        act = rnd.choice(list(DOC["write"]["id_action"]["resources"][res]))
+        return idcmd(res, V_u32(1000000000 + marker()), V_str(act))
+
+    def custom():
+        k = marker()
+        data = bytes([k >> 24 & 255, k >> 16 & 255, k >> 8 & 255, k & 255]) * rnd.choice([1, 3, 300])
+        return conc_custom(rnd.choice(["EnableImpinjExtensions", "ImpinjSaveSettingsMessage", "X"]), {"s": str(2000000000 + k)},
+                           {"s": str(k % 256)}, V_str(base64.b64encode(data).decode()))
+
+    def read():
+        names = [rnd.choice(READ_KNOWN) for _ in range(rnd.choice([1, 1, 1, 2, 4]))]
+        return {"k": "r", "reqs": [attr_req(n, "Object") for n in names]}
+
+    def bad():
+        x = rnd.randrange(7)
+        if x == 0:
+            return {"k": "w", "reqs": [attr_req("ROSpec", "Object")], "params": [P("ROSpec", "Object", rnd.choice(RO_BAD))]}
+        if x == 1:
+            return {"k": "w", "reqs": [attr_req("AccessSpec", "Object")], "params": [P("AccessSpec", "Object", rnd.choice(AS_BAD))]}
+        if x == 2:
+            return {"k": "w", "reqs": [attr_req("ReaderConfig", "Object")], "params": [P("ReaderConfig", "Object", rnd.choice(CFG_BAD))]}
+        if x == 3:
+            return idcmd(rnd.choice(["ROSpecID", "AccessSpecID"]), V_u32(1000000000 + marker()), V_str(rnd.choice(["Kill", "", "enable", "Pause"])))
+        if x == 4:
+            return conc_custom("X", {"s": str(2000000000 + marker())}, {"s": "21"}, V_str(rnd.choice(["AQID/w=", "!!!!", "A"])))
+        if x == 5:
+            return {"k": "r", "reqs": [attr_req(rnd.choice(["Foo", "ROSpecID", ""]), "Object")]}
+        return idcmd("ROSpecID", V_str("5"), V_str("Enable"))
+
+    def anything(scales):
+        x = rnd.random()
+        if x < 0.45:
+            return obj(rnd.choice(list(JSON_RES)), rnd.choice(scales))
+        if x < 0.62:
+            return ident()
+        if x < 0.75:
+            return custom()
+        if x < 0.90:
+            return read()
+        return bad()
+
+    rounds = []
+
+    def add(name, nl, nc, mk, dev):
+        lanes = []
+        for _ in range(nl):
+            lane = []
+            for _ in range(nc):
+                c = mk()
+                c["dev"] = dev()
+                lane.append(c)
+            lanes.append(lane)
+        rounds.append({"name": name, "lanes": lanes})
+    NL, NC = 8, 3
+    for kind in JSON_RES:                                         # several callers, one device, one kind, one size class
+        add("one-device-" + kind, NL, NC, lambda kind=kind: obj(kind, "l"), lambda: 0)
+    add("one-device-objects", NL, NC, lambda: obj(rnd.choice(list(JSON_RES)), rnd.choice("sml")), lambda: 1)
+    add("two-callers", 2, 8, lambda: obj(rnd.choice(list(JSON_RES)), "l"), lambda: 2)
+    for _ in range(2):
+        add("devices-objects", NL, NC, lambda: obj(rnd.choice(list(JSON_RES)), rnd.choice("ml")), lambda: rnd.randrange(NDEV))
+    # short commands only (ID actions, custom messages, reads, malformed ones): many callers, many commands each
+    add("short-commands", 12, 10, lambda: rnd.choice([ident, ident, custom, custom, read, bad])(), lambda: rnd.randrange(NDEV))
+    for _ in range(4 if tier != "thorough" else 30):
+        add("all-kinds", rnd.choice([4, 8, 12]), rnd.choice([2, 3, 5]), lambda: anything(rnd.choice(["sml", "l", "m"])),
+            lambda: rnd.randrange(NDEV))
+    # only commands whose documented outcome leaves no latitude
+    for r in rounds:
+        for lane in r["lanes"]:
+            for c in lane:
+                assert doc_expect(c)["kind"] in ("ok", "bad"), (describe(c), doc_expect(c))
+    return json.loads(json.dumps(rounds))
+
+
+def conc_schedules(rnd, rnd_round):
+    """schedules (caller index per step) that let every caller finish: caller after caller, and a seeded interleaving"""
+    need = [sum(3 + len(c["reqs"]) for c in lane) for lane in rnd_round["lanes"]]
+    seq_s = [i for i, n in enumerate(need) for _ in range(n)]
+    mixed = list(seq_s)
+    rnd.shuffle(mixed)
+    return [seq_s, mixed]
+
+
+def fkey(f):
+    return json.dumps(f, sort_keys=True)
+
+
+def conc_label(r, li, ci):
+    c = r["lanes"][li][ci]
+    return "caller %d command %d (device %d: %s)" % (li, ci, c["dev"], describe(c)[:110])
+
+
+def conc_owner_table(r):
+    """markers -> command: 32-bit IDs (ROSpecID / AccessSpecID / ID parameter / KeepAlive interval / vendor) and 16-bit element values"""
+    big, small = {}, {}
+    for li, lane in enumerate(r["lanes"]):
+        for ci, c in enumerate(lane):
+            if c["k"] != "w" or not c["params"]:
+                continue
+            v = c["params"][0]["v"]
+            j = v["h"].get("j") if isinstance(v.get("h"), dict) else None
+            if isinstance(j, dict):
+                for key in ("ROSpecID", "AccessSpecID"):
+                    if isinstance(j.get(key), int):
+                        big[j[key]] = (li, ci)
+                if isinstance(j.get("KeepAliveSpec"), dict):
+                    big[j["KeepAliveSpec"].get("Interval")] = (li, ci)
+                for path in (lambda: j["AISpecs"][0]["AntennaIDs"][0], lambda: j["AccessCommand"]["C1G2Write"]["Data"][0],
+                             lambda: j["GPOWriteData"][0]["Port"]):
+                    try:
+                        small[path()] = (li, ci)
+                    except (KeyError, IndexError, TypeError):
+                        pass
+            if "u32" in v:
+                big[v["u32"]] = (li, ci)
+            a = (c["reqs"][0].get("a") or {}).get("vendor")
+            if a and "s" in a and a["s"].isdigit():
+                big[int(a["s"])] = (li, ci)
+    return big, small
+
+
+def conc_explain(r, raw, expected_raw):
+    """whose parameters an unexpected request is made of"""
+    big, small = conc_owner_table(r)
+    p = raw["p"]
+    owners = []
+    def own(val, tbl, what):
+        if val in tbl:
+            li, ci = tbl[val]
+            owners.append("%s %d is a parameter of %s" % (what, val, conc_label(r, li, ci)))
+    t = raw["t"]
+    if t in (MT["AddROSpec"], MT["AddAccessSpec"]) and len(p) >= 16:
+        own(int(p[8:16], 16), big, "its spec ID")
+    elif t == MT["CustomMessage"] and len(p) >= 8:
+        own(int(p[0:8], 16), big, "its vendor")
+    elif t != MT["SetReaderConfig"] and len(p) == 8:
+        own(int(p, 16), big, "its ID")
+    best = {}
+    for (li, ci), hx in expected_raw.items():
+        if not isinstance(hx, str) or hx.startswith("~"):
+            continue
+        pre = 0
+        while pre < min(len(hx), len(p)) and hx[pre] == p[pre]:
+            pre += 1
+        suf = 0
+        while suf < min(len(hx), len(p)) - pre and hx[-1 - suf] == p[-1 - suf]:
+            suf += 1
+        best[(li, ci)] = (pre // 2, suf // 2)
+    if best:
+        bp = max(best, key=lambda k: best[k][0])
+        bs = max(best, key=lambda k: best[k][1])
+        owners.append("of its %d bytes the first %d equal the documented request of %s and the last %d that of %s" % (
+            len(p) // 2, best[bp][0], conc_label(r, *bp), best[bs][1], conc_label(r, *bs)))
+    if t == MT["SetReaderConfig"]:
+        c = parse_cfg(p)
+        if c:
+            ports = sorted({int(b[:4], 16) for tt, b in c[3] if tt == 219 and len(b) >= 4})
+            for q in ports[:4]:
+                own(q, small, "GPO port")
+    return "; ".join(owners) if owners else "no marker of any command of the round found in it"
+
+
+def judge_round(r, run):
+    """the documented relation, command by command, on what the devices received while the commands of the round were in
+    progress together. returns [(signature, text)]"""
+    out = []
+    if run.get("note"):
+        out.append(("concurrent:stuck", run["note"]))
+        return out
+    exp_dev = {d: [] for d in range(NDEV)}       # device -> [(fkey, li, ci, frame)]
+    exp_raw = {}
+    for li, lane in enumerate(r["lanes"]):
+        for ci, c in enumerate(lane):
+            e = doc_expect(c)
+            a = run["res"][li][ci]
+            if a.get("panic"):
+                out.append(("concurrent:panic", "%s panicked: %s" % (conc_label(r, li, ci), a.get("panic_msg", "")[:300])))
+                continue
+            if e["kind"] == "ok" and a["err"]:
+                out.append(("concurrent:well-formed-command-rejected", "%s is well-formed (alone it is accepted) but returned an error" % conc_label(r, li, ci)))
+            if e["kind"] == "bad" and not a["err"]:
+                out.append(("concurrent:malformed-not-rejected", "%s is malformed (%s) but returned no error" % (conc_label(r, li, ci), e["why"])))
+            for f in e["frames"]:
+                exp_dev[c["dev"]].append((fkey(f), li, ci, f))
+                if f[0] == "m":
+                    exp_raw[(li, ci)] = f[2]
+    for d in range(NDEV):
+        if not run["fence"][d]:
+            out.append(("concurrent:connection-lost", "after the round device %d could no longer send (fence failed)" % d))
+        got = canon_go(run["frames"][d])
+        want = {}
+        for k, li, ci, f in exp_dev[d]:
+            want.setdefault(k, []).append((li, ci))
+        known = set(want)
+        elsewhere = {k: (dd, li, ci) for dd in exp_dev for k, li, ci, f in exp_dev[dd] if dd != d}
+        pos = {}
+        for n, (g, raw) in enumerate(zip(got, run["frames"][d])):
+            k = fkey(g)
+            if want.get(k):
+                pos.setdefault(want[k].pop(0), []).append(n)
+                continue
+            shown = dict(t=raw["t"], p=raw["p"] if len(raw["p"]) <= 120 else raw["p"][:120] + "...(%d bytes)" % (len(raw["p"]) // 2))
+            if k in known:
+                out.append(("concurrent:request-repeated", "device %d received request %s more often than commands asked for it" % (d, shown)))
+            elif k in elsewhere:
+                dd, li, ci = elsewhere[k]
+                out.append(("concurrent:request-to-wrong-device", "device %d received %s, the documented request of %s" % (d, shown, conc_label(r, li, ci))))
+            else:
+                out.append(("concurrent:request-matches-no-command",
+                            "device %d received request %s that is the documented request of NO command of the round: %s" % (
+                                d, shown, conc_explain(r, raw, exp_raw))))
+        for k, rest in want.items():
+            for li, ci in rest:
+                if not run["res"][li][ci]["err"]:
+                    out.append(("concurrent:request-lost", "%s returned no error but device %d never received its documented request" % (conc_label(r, li, ci), d)))
+        # a caller's commands reach a device in the order it issued them (only frames that identify their command)
+        for li in range(len(r["lanes"])):
+            seq_pos = [pos[(li, ci)][0] for ci in range(len(r["lanes"][li]))
+                       if (li, ci) in pos and r["lanes"][li][ci]["dev"] == d and r["lanes"][li][ci]["k"] == "w"]
+            if seq_pos != sorted(seq_pos):
+                out.append(("concurrent:order-within-caller", "device %d received the requests of caller %d out of the order it issued them" % (d, li)))
+    return out
+
+
+def conc_model_check(r, rendered, tabs, variant):
+    """the machine of Commands.v on the round: independent of the schedule, finished, and what it gives per device/caller"""
+    per = []
+    for sched_out in rendered:
+        rows = sched_out[0 if variant else 1]
+        wire = [(row[1], row[2], model_frames([[0], row[3:]], tabs)[1][0]) for row in rows if row[0] == 7000]
+        verdicts = {row[1]: [bool(x) for x in row[2:]] for row in rows if row[0] == 7001}
+        fin = [row[1] for row in rows if row[0] == 7002] == [1]
+        per.append((wire, verdicts, fin))
+    return per
+
+
+def run_conc(res, tier, seed, exe_unused, rounds, rep, tabs, model_rounds, variant):
+    """runs the rounds on the real Driver, judges them against the documentation and compares with the model"""
+    ok, log, exe = True, "", exe_unused
+    lines = [json.dumps({"k": "init", "ndev": NDEV})]
+    for r in rounds:
+        lanes = []
+        for lane in r["lanes"]:
+            ll = []
+            for c in lane:
+                h = {"k": c["k"], "reqs": c["reqs"], "dev": c["dev"]}
+                if c["k"] == "w":
+                    h["params"] = [{"n": p["n"], "t": p["t"], "v": p["v"]["h"]} for p in c["params"]]
+                ll.append(h)
+            lanes.append(ll)
+        lines.append(json.dumps({"k": "round", "rep": rep, "lanes": lanes}))
+    rc, go_lines, glog = vlib.run_harness(exe, "TestVerifC14Conc", "\n".join(lines) + "\n", timeout=900,
+                                          extra_env={"GOMAXPROCS": "4"}, tag="_conc")
+    stats = dict(rounds=len(rounds), executions=0, commands=0, concurrent_object_writes=0, requests_matched=0)
+    if rc != 0 or len(go_lines) != len(lines):
+        k = len(go_lines)
+        r = rounds[k - 1] if 1 <= k <= len(rounds) else None
+        last = json.loads(go_lines[-1]) if go_lines else {}
+        stuck = any("stuck" in (x.get("note") or "") for x in last.get("runs", []))
+        if stuck and 1 <= k - 1 < len(rounds) + 1:
+            r = rounds[k - 2]
+        if r is not None and ("panic" in glog or stuck):
+            sig = "concurrent:stuck" if stuck else "concurrent:crash"
+            res.violation(sig, "commands issued at the same time (round '%s', %d callers): %s\n%s" % (
+                r["name"], len(r["lanes"]), "the commands had not all returned after 90 s" if stuck else "the service panicked outside the calling goroutines",
+                glog[-1200:]), dict(kind="scenario", correspondence="C14/concurrent-commands", rounds=[compact_round(r)], cases=[], log=glog[-3000:]))
+        else:
+            res.violation("harness-run", "Go harness (concurrent rounds) failed (rc=%s, %d/%d answers): %s" % (rc, len(go_lines), len(lines), glog[-1500:]),
+                          dict(kind="harness", log=glog[-3000:]), False)
+        return stats
+    init = json.loads(go_lines[0])["runs"][0]
+    for d in range(NDEV):
+        fr = canon_go(init["frames"][d])
+        if fr != [["cfg", 0, [KA_DOC["tlv_body_hex"]], []]] or not init["fence"][d]:
+            res.violation("keepalive-on-connect", "device %d of %d behind one Driver: the reader received %s on connect (fence ok=%s, %s); expected exactly one "
+                          "SetReaderConfig with KeepAliveSpec periodic 30000 ms" % (d, NDEV, fr, init["fence"][d], init.get("note", "")),
+                          dict(kind="scenario", correspondence="C14/onConnect", cases=[], observed=init))
+    seen = set()
+    for ri, r in enumerate(rounds):
+        ans = json.loads(go_lines[ri + 1])
+        ncmd = sum(len(l) for l in r["lanes"])
+        nobj = sum(1 for l in r["lanes"] for c in l if c["k"] == "w" and c["reqs"] and c["reqs"][0]["n"] in JSON_RES)
+        for xi, run in enumerate(ans["runs"]):
+            stats["executions"] += 1
+            stats["commands"] += ncmd
+            stats["concurrent_object_writes"] += nobj
+            stats["requests_matched"] += sum(len(f) for f in run.get("frames", []))
+            problems = judge_round(r, run)
+            for sig, text in problems:
+                if sig in seen:
+                    continue
+                seen.add(sig)
+                others = sorted({s for s, _ in problems if s != sig})
+                res.violation(sig, "commands issued at the same time against one Driver (round '%s': %d callers x %d commands, %d devices; execution %d of %d): %s%s"
+                              % (r["name"], len(r["lanes"]), len(r["lanes"][0]), NDEV, xi + 1, len(ans["runs"]), text,
+                                 " [same execution also: %s]" % ", ".join(others) if others else ""),
+                              dict(kind="scenario", correspondence="C14/concurrent-commands-vs-doc_commands.json", rounds=[compact_round(r)], cases=[],
+                                   problems=[t for _, t in problems][:20],
+                                   observed=dict(res=run.get("res"), fence=run.get("fence"),
+                                                 frames=[[dict(t=f["t"], p=f["p"][:64] + ("..." if len(f["p"]) > 64 else "")) for f in fs] for fs in run.get("frames", [])])))
+        # ---- model: the machine gives the same per-device requests and per-caller verdicts under every schedule, and they are what
+        #      the documentation demands (so: what Go gave, if Go passed)
+        if model_rounds is None:
+            continue
+        per = conc_model_check(r, model_rounds[ri], tabs, variant)
+        docw = {d: sorted(fkey(f) for lane in r["lanes"] for c in lane if c["dev"] == d for f in doc_expect(c)["frames"]) for d in range(NDEV)}
+        docv = {li: [doc_expect(c)["kind"] == "bad" for c in lane] for li, lane in enumerate(r["lanes"])}
+        for si, (wire, verdicts, fin) in enumerate(per):
+            mw_doc = {d: sorted(fkey(f) for _, dd, f in wire if dd == d) for d in range(NDEV)}
+            if not fin or mw_doc != docw or verdicts != docv:
+                res.violation("doc-transcription-mismatch", "round '%s', schedule %d: the machine of coq/Driver/Commands.v gives finished=%s and requests/verdicts that "
+                              "differ from spec/doc_commands.json" % (r["name"], si, fin),
+                              dict(kind="correspondence", correspondence="C14/Commands.v-vs-doc_commands.json", rounds=[compact_round(r)], cases=[]), False)
+                break
+            for li in range(len(r["lanes"])):
+                lane_wire = [fkey(f) for l2, _, f in wire if l2 == li]
+                lane_doc = [fkey(f) for c in r["lanes"][li] for f in doc_expect(c)["frames"]]
+                if lane_wire != lane_doc:
+                    res.violation("doc-transcription-mismatch", "round '%s', schedule %d: caller %d's requests in the machine differ from the documented ones" % (
+                        r["name"], si, li), dict(kind="correspondence", correspondence="C14/Commands.v-vs-doc_commands.json", rounds=[compact_round(r)], cases=[]), False)
+                    break
+    return stats
+
+
 def run(tier, seed, replay=None):
     res = vlib.Result(PID, tier, seed)
     res.assumptions = vlib.TRUSTED_COMMON + [
@@ -876,7 +1284,13 @@ def run(tier, seed, replay=None):
         for pos, i in enumerate(order):
             cases[i]["conn"] = pos * (NCONN - 1) // max(1, len(order))
     tabs = {"cfg": Interner(), "ro": Interner(), "as": Interner()}
-    consts, model = run_model(cases, tabs)
+    # rounds of commands in progress at the same time (several callers, several devices, one Driver)
+    rounds = [expand_round(r) for r in rp_in.get("rounds") or []] if replay else gen_rounds(seed, tier)
+    conc_rep = 40 if replay else 10 if tier == "thorough" else 3
+    srnd = random.Random(seed ^ 0x5C4ED)
+    for r in rounds:
+        r["scheds"] = conc_schedules(srnd, r)
+    consts, model, model_rounds = run_model(cases, tabs, rounds)
     if consts is None:
         res.violation("oracle-run", "model evaluation (coqc on generated cases) failed: " + str(model)[-1500:], dict(kind="build"), False)
         return res.finish()
@@ -1045,6 +1459,8 @@ def run(tier, seed, replay=None):
         rp = f9[0][1]
         rp = dict(rp, cases=[r["cases"][0] for _, r in f9][:6], theorem="C14_shipped_refuted_rejects_documented / C14_shipped_refuted_sends_for_malformed")
         res.violation("write-AccessSpec-not-AddAccessSpec", msg, rp)
+    conc_stats = run_conc(res, tier, seed, exe, rounds, conc_rep, tabs, model_rounds,
+                          not (variant_votes["false"] and not variant_votes["true"])) if rounds else {}
     if variant_votes["true"] and variant_votes["false"]:
         res.violation("model-variant-mixed", "Go behaves like the model with the AccessSpec case on %d inputs and without it on %d" % (
             variant_votes["true"], variant_votes["false"]), dict(kind="correspondence", correspondence="C14/Driver-vs-Commands.v"), False)
@@ -1059,7 +1475,13 @@ def run(tier, seed, replay=None):
              "replaces its llrp.Client and redials; thorough: the last change-over is a peer gone silent, detected by the read timeout); on every "
              "connection: the SetReaderConfig sent on connect and the read timeout of the current client; distinct by (kind, requests, parameters); "
              "non-trivial = everything except the four plain single-resource reads that /repo's TestHandleRead already issues",
-        samples=samples, input_distribution=dist, traces_validated_against_impl=evals,
+        concurrent_rounds=dict(conc_stats, rule="rounds of commands issued at once by several callers (goroutines released together by a barrier) against "
+                               "ONE Driver with %d devices: one device / several devices, Object-typed writes of one size class / mixed sizes, all "
+                               "command kinds incl. malformed ones; every parameter of every command carries that command's markers; each round is "
+                               "executed %d times; every request the scripted readers received is matched to the command that documents it "
+                               "(multiset per device, order per caller), verdicts per command; the same rounds run on the machine of "
+                               "coq/Driver/Commands.v under two schedules" % (NDEV, conc_rep)),
+        samples=samples, input_distribution=dist, traces_validated_against_impl=evals + conc_stats.get("commands", 0),
         extreme_documents_rejected_by_encoder=encoder_rejected,
         constants_from_running_code=k, connections=conn_log, cases_per_connection=per_conn, model_constants=consts, model_variant_votes=variant_votes,
         documents=dict(config=len(tabs["cfg"].items), rospec=len(tabs["ro"].items), accessspec=len(tabs["as"].items)),
